@@ -644,7 +644,18 @@ class State:
         self.env: Dict[str, Any] = env if env is not None else {}
         self.pc: List[Any] = pc if pc is not None else []
         self.decided: Dict[int, Any] = {}
+        self.decided_used: Dict[int, int] = {}
         self.trace: List[str] = []
+
+    def take_decided(self, node):
+        """the outcome chosen for `node` by the path split that is re-executing the current statement.  One outcome stands for
+        one evaluation: a node evaluated twice within the same statement (a lambda called twice, a comprehension) would
+        silently get the same outcome both times, so that is refused"""
+        k = id(node)
+        if self.decided_used.get(k, 0) >= 1:
+            raise Undecided('L%s: expression evaluated more than once in a statement whose path was split on it' % getattr(node, 'lineno', '?'))
+        self.decided_used[k] = 1
+        return self.decided[k]
 
     def fork(self):
         s = State(dict(self.env), list(self.pc))
@@ -652,6 +663,7 @@ class State:
             if isinstance(v, SRecord):
                 s.env[k] = v.clone()
         s.decided = dict(self.decided)
+        s.decided_used = dict(self.decided_used)
         s.trace = list(self.trace)
         return s
 
@@ -961,8 +973,14 @@ class Engine:
                     if not feasible(s2.pc):
                         continue
                 s2.decided[id(f.node)] = (kind, payload)
+                s2.decided_used = {}
                 s2.trace.append('L%d:%s' % (getattr(node, 'lineno', 0), label))
-                outs.extend(self.exec_stmt(node, s2))
+                done = self.exec_stmt(node, s2)
+                for s3, _ in done:
+                    # the outcome was for this execution of the statement only (a later execution of the same statement,
+                    # e.g. the next round of an unrolled loop, decides again)
+                    s3.decided = {k: v for k, v in s3.decided.items() if k != id(f.node)}
+                outs.extend(done)
             return outs
         except PyRaise as r:
             st.trace.append('L%d:raise %s' % (getattr(node, 'lineno', 0), r.exc))
@@ -1527,6 +1545,7 @@ class Engine:
         # that the previous operands did not already decide the result
         s2 = State(st.env, list(st.pc))
         s2.decided = st.decided
+        s2.decided_used = st.decided_used
         s2.trace = st.trace
         vals = []
         guards = []
@@ -1582,13 +1601,33 @@ class Engine:
         raise Undecided('unary op')
 
     def ev_IfExp(self, node, st):
+        if id(node) in st.decided:
+            # the statement is being re-executed for one alternative of the split below: only that branch is evaluated
+            return self.ev(node.body if st.take_decided(node)[1] else node.orelse, st)
         c = self.truthy(self.ev(node.test, st))
-        a = self.ev(node.body, st)
-        b = self.ev(node.orelse, st)
-        if z3.is_true(z3.simplify(c)):
-            return a
-        if z3.is_false(z3.simplify(c)):
-            return b
+        cs = z3.simplify(c)
+        if z3.is_true(cs):
+            return self.ev(node.body, st)  # Python evaluates only the branch taken
+        if z3.is_false(cs):
+            return self.ev(node.orelse, st)
+        effectful = any(isinstance(n, (ast.Call, ast.Await, ast.NamedExpr, ast.Yield, ast.YieldFrom)) for br in (node.body, node.orelse) for n in ast.walk(br))
+        if effectful and not getattr(self, 'in_spec', False):
+            # a branch that calls something: its call model may assume facts, raise, fork or change ghost state, and all of
+            # that happens only if the branch is taken - split the path on the condition instead of evaluating both
+            raise Fork(node, [('ifexp-then', c, 'ifexp', True), ('ifexp-else', z3.Not(c), 'ifexp', False)])
+        outs = []
+        for br, g in ((node.body, c), (node.orelse, z3.Not(c))):
+            # call-free branches: evaluated under their guard, so that safety obligations of the branch not taken (an index,
+            # a division) are not demanded, and facts recorded while evaluating hold only under the guard
+            s2 = State(st.env, list(st.pc) + [g])
+            s2.decided = st.decided
+            s2.decided_used = st.decided_used
+            s2.trace = st.trace
+            n0 = len(s2.pc)
+            outs.append(self.ev(br, s2))
+            for fact in s2.pc[n0:]:
+                st.assume(z3.Implies(g, fact))
+        a, b = outs
         ta = type_of_value(a)
         tb = type_of_value(b)
         t = ta if ta == tb else ('real' if {ta, tb} <= {'int', 'real'} else ('int' if {ta, tb} <= {'int', 'bool'} else None))
@@ -1977,7 +2016,7 @@ class Engine:
 
     def index(self, cont, idx, st, node=None):
         if node is not None and isinstance(cont, dict) and id(node) in st.decided:
-            kind, payload = st.decided[id(node)]  # (C12) a constant-table lookup that forked (const_dict_lookup)
+            kind, payload = st.take_decided(node)  # (C12) a constant-table lookup that forked (const_dict_lookup)
             if kind == 'raise':
                 raise PyRaise(payload)
             return payload
@@ -2160,7 +2199,7 @@ class Engine:
 
     def ev_Await(self, node, st):
         if id(node) in st.decided:
-            kind, payload = st.decided[id(node)]
+            kind, payload = st.take_decided(node)
             if kind == 'raise':
                 raise PyRaise(payload)
             return payload
@@ -2196,7 +2235,7 @@ class Engine:
     # ---- calls
     def ev_Call(self, node, st):
         if id(node) in st.decided:
-            kind, payload = st.decided[id(node)]
+            kind, payload = st.take_decided(node)
             if kind == 'raise':
                 raise PyRaise(payload)
             return payload
@@ -2299,6 +2338,7 @@ class Engine:
         if isinstance(func, tuple) and func and func[0] == 'lambda':
             lam, env = func[1], func[2]
             s2 = State(dict(env), st.pc)
+            s2.decided, s2.decided_used, s2.trace = st.decided, st.decided_used, st.trace
             for p, a in zip(lam.args.args, node.args):
                 s2.env[p.arg] = self.ev(a, st)
             return self.ev(lam.body, s2)
